@@ -1,6 +1,8 @@
 import DspVerif.Props.C12
 import DspVerif.Props.C12More
 import DspVerif.Gen.StepsAdaptive
+import DspVerif.Gen.CtorAdaptive
+import DspVerif.Lib.GenBridge
 /-!
 # C12 — bridge: the hand-written LMS / NLMS model IS the regenerated sample loop of `LmsFilter<T>::process`
 
@@ -1450,5 +1452,214 @@ example (P : RlsP ℝ) (dl : ℝ) : (rlsInit P dl : RlsState (Cx ℝ)).u.size = 
 
 end
 
+
+/-! BEGIN steps3 constructors -/
+/-! ## Constructors of `LmsFilter<T>`, `RlsFilter<T>` (regenerated: `Gen/CtorAdaptive.lean`) -/
+
+/-- `for (i = 0; i < n; i++) a[i * n + i] = v` on an array of `n * n` cells: the diagonal of the flat row-major matrix -/
+theorem foldl_set_diag {β : Type} (d v : β) (n : Nat) (a : Array β) (ha : a.size = n * n) :
+    ∀ m, m ≤ n →
+      ((List.range m).foldl (fun (acc : Array β) (i : Nat) => acc.setIfInBounds (i * n + i) v) a).size = n * n ∧
+      ∀ j, ((List.range m).foldl (fun (acc : Array β) (i : Nat) => acc.setIfInBounds (i * n + i) v) a).getD j d =
+        if j / n = j % n ∧ j / n < m ∧ j < n * n then v else a.getD j d := by
+  intro m
+  induction m with
+  | zero => intro _; simp [ha]
+  | succ m ih =>
+    intro hm
+    obtain ⟨hs, hg⟩ := ih (Nat.le_of_succ_le hm)
+    have hmn : m < n := hm
+    rw [List.range_succ, List.foldl_append]
+    simp only [List.foldl_cons, List.foldl_nil]
+    refine ⟨by simp [hs], fun j => ?_⟩
+    rw [GenBridge.getD_setIfInBounds, hs, hg j]
+    have hlt : m * n + m < n * n := by nlinarith
+    have hdiv : (m * n + m) / n = m := by
+      rw [Nat.mul_comm m n, Nat.mul_add_div (by omega), Nat.div_eq_of_lt hmn]; simp
+    have hmod : (m * n + m) % n = m := by
+      rw [Nat.mul_comm m n, Nat.mul_add_mod, Nat.mod_eq_of_lt hmn]
+    by_cases hj : m * n + m = j
+    · subst hj
+      rw [if_pos ⟨rfl, hlt⟩, if_pos ⟨by rw [hdiv, hmod], by rw [hdiv]; omega, hlt⟩]
+    · have hne : ¬ (j / n = j % n ∧ j / n = m) := by
+        rintro ⟨h1, h2⟩
+        apply hj
+        have := Nat.div_add_mod j n
+        rw [← h1, h2] at this
+        rw [← this]; ring
+      by_cases h1 : j / n = j % n ∧ j / n < m ∧ j < n * n
+      · have : j / n = j % n ∧ j / n < m + 1 ∧ j < n * n := ⟨h1.1, by omega, h1.2.2⟩
+        rw [if_neg (fun h => hj h.1), if_pos h1, if_pos this]
+      · have : ¬ (j / n = j % n ∧ j / n < m + 1 ∧ j < n * n) := by
+          rintro ⟨a1, a2, a3⟩
+          rcases Nat.lt_succ_iff_lt_or_eq.mp a2 with h | h
+          · exact h1 ⟨a1, h, a3⟩
+          · exact hne ⟨a1, h⟩
+        rw [if_neg (fun h => hj h.1), if_neg h1, if_neg this]
+
+noncomputable section
+
+/-! ### `LmsFilter<real_t>` -/
+
+/-- the object `LmsFilter<real_t>(len, step_size, method, leak)` leaves, from the model's parameter record and state -/
+def lmsObjR (p : LmsP ℝ) (s : LmsState ℝ) : Gen.LmsFilterRObj ℝ :=
+  { u := s.u, w := s.w, mu := p.mu, len := (p.len : Int), locked := s.locked,
+    method := if p.nlms then Gen.LmsType_NLMS else Gen.LmsType_LMS, lk := p.lk }
+
+/-- members of a constructed `LmsFilter<real_t>` that the generated loop body reads / writes -/
+def lmsObjRP (o : Gen.LmsFilterRObj ℝ) : Gen.LmsFilterRStepParams ℝ :=
+  { mu := o.mu, len := o.len, locked := o.locked, method := o.method, lk := o.lk }
+
+theorem lmsObjRP_obj (p : LmsP ℝ) (s : LmsState ℝ) : lmsObjRP (lmsObjR p s) = toGenR p s.locked := rfl
+
+/-- **bridge, `LmsFilter<real_t>::LmsFilter`:** for every length `len ≥ 0`, step size, method and leakage the generated constructor
+leaves the object of `lmsInit` (zero-filled `_u` of `len - 1`, `_w` of `len` cells, unlocked) -/
+theorem lmsRCtor_eq (p : LmsP ℝ) :
+    Gen.lmsRCtor (p.len : Int) p.mu (if p.nlms then Gen.LmsType_NLMS else Gen.LmsType_LMS) p.lk = lmsObjR p (lmsInit p) := by
+  have h1 : ((p.len : Int) - 1).toNat = p.len - 1 := by omega
+  simp [Gen.lmsRCtor, lmsObjR, lmsInit, Gen.arrNew, Gen.zeroR, h1, zero_real]
+
+/-- **T12.1 (error clause) from the GENERATED constructor through the GENERATED loop, real data:** construct by the regenerated
+constructor (any `len ≥ 1`, step size, method, leakage), run the regenerated loop body over any frame: `e[k] = d[k] − y[k]`. -/
+theorem lmsR_gen_from_ctor_error_exact (p : LmsP ℝ) (hlen : 1 ≤ p.len) (x d : Array ℝ) (hxd : x.size = d.size) :
+    let o := Gen.lmsRCtor (p.len : Int) p.mu (if p.nlms then Gen.LmsType_NLMS else Gen.LmsType_LMS) p.lk
+    let run := runIdx (fun s k => Gen.lmsRStep Adaptive.eps (lmsObjRP o) s d (o.u ++ x) ((o.u ++ x).map fun v => v * v) (k : Int))
+      ⟨o.w⟩ x.size
+    run.2.2.toList = List.zipWith (fun dk yk => dk - yk) d.toList run.2.1.toList := by
+  intro o run
+  have ho : o = lmsObjR p (lmsInit p) := lmsRCtor_eq p
+  have hs := C12.lmsInit_sizes (ρ := ℝ) (τ := ℝ) p
+  have := lmsR_gen_error_exact p (lmsInit p) x d hlen hs.1 hs.2.1 hxd
+  simp only [run, ho]
+  exact this
+
+/-! ### `LmsFilter<cmplx_t>` -/
+
+def lmsObjC (p : LmsP ℝ) (s : LmsState (Cx ℝ)) : Gen.LmsFilterCObj ℝ :=
+  { u := s.u, w := s.w, mu := p.mu, len := (p.len : Int), locked := s.locked,
+    method := if p.nlms then Gen.LmsType_NLMS else Gen.LmsType_LMS, lk := p.lk }
+
+def lmsObjCP (o : Gen.LmsFilterCObj ℝ) : Gen.LmsFilterCStepParams ℝ :=
+  { mu := o.mu, len := o.len, locked := o.locked, method := o.method, lk := o.lk }
+
+theorem lmsObjCP_obj (p : LmsP ℝ) (s : LmsState (Cx ℝ)) : lmsObjCP (lmsObjC p s) = toGenC p s.locked := rfl
+
+/-- **bridge, `LmsFilter<cmplx_t>::LmsFilter`** -/
+theorem lmsCCtor_eq (p : LmsP ℝ) :
+    Gen.lmsCCtor (p.len : Int) p.mu (if p.nlms then Gen.LmsType_NLMS else Gen.LmsType_LMS) p.lk = lmsObjC p (lmsInit p) := by
+  have h1 : ((p.len : Int) - 1).toNat = p.len - 1 := by omega
+  simp [Gen.lmsCCtor, lmsObjC, lmsInit, Gen.arrNew, h1, zeroC_eq]
+
+/-- **T12.1 (error clause) from the GENERATED constructor through the GENERATED loop, complex data** -/
+theorem lmsC_gen_from_ctor_error_exact (p : LmsP ℝ) (hlen : 1 ≤ p.len) (x d : Array (Cx ℝ)) (hxd : x.size = d.size) :
+    let o := Gen.lmsCCtor (p.len : Int) p.mu (if p.nlms then Gen.LmsType_NLMS else Gen.LmsType_LMS) p.lk
+    let run := runIdx (fun s k => Gen.lmsCStep Adaptive.eps (lmsObjCP o) s d (o.u ++ x) ((o.u ++ x).map Gen.abs2c) (k : Int))
+      ⟨o.w⟩ x.size
+    run.2.2.toList = List.zipWith (fun dk yk => dk - yk) d.toList run.2.1.toList := by
+  intro o run
+  have ho : o = lmsObjC p (lmsInit p) := lmsCCtor_eq p
+  have hs := C12.lmsInit_sizes (ρ := ℝ) (τ := Cx ℝ) p
+  have := lmsC_gen_error_exact p (lmsInit p) x d hlen hs.1 hs.2.1 hxd
+  simp only [run, ho]
+  exact this
+
+/-! ### `RlsFilter<real_t>` -/
+
+def rlsObjR (P : RlsP ℝ) (s : RlsState ℝ) : Gen.RlsFilterRObj ℝ :=
+  { n := (P.n : Int), mu := P.mu, u := s.u, w := s.w, p := s.p, locked := s.locked }
+
+def rlsObjRP (o : Gen.RlsFilterRObj ℝ) : Gen.RlsFilterRStepParams ℝ := { n := o.n, mu := o.mu, locked := o.locked }
+
+/-- **bridge, `RlsFilter<real_t>::RlsFilter`:** for every length, forgetting factor and diagonal load the generated constructor
+(zero-filled `_u`, `_w`, `_p`, then the loop `_p[i * _n + i] = diag_load`) leaves the object of `rlsInit`: `_p = diag_load · I`
+in the flat row-major layout -/
+theorem rlsRCtor_eq (P : RlsP ℝ) (dl : ℝ) : Gen.rlsRCtor (P.n : Int) P.mu dl = rlsObjR P (rlsInit P dl) := by
+  unfold Gen.rlsRCtor rlsObjR rlsInit
+  simp only [Gen.arrNew, Int.toNat_natCast, ← Nat.cast_mul, Gen.zeroR, fn_ofInt, Int.cast_zero, zero_real]
+  congr 1
+  have hf : (Gen.rlsRCtor_loop1 (P.n : Int) dl : Array ℝ → Nat → Array ℝ) =
+      fun acc i => acc.setIfInBounds (i * P.n + i) dl := by
+    funext acc i
+    simp only [Gen.rlsRCtor_loop1]
+    exact GenBridge.arrSet_eq _ _ _ _ (by simp only [Int.ofNat_eq_natCast]; push_cast; ring)
+  rw [hf]
+  obtain ⟨hs, hg⟩ := foldl_set_diag (0 : ℝ) dl P.n (Array.replicate (P.n * P.n) 0) (by simp) P.n (le_refl _)
+  apply GenBridge.ext_getD (0 : ℝ)
+  · simp [hs]
+  · intro j hj
+    rw [hs] at hj
+    rw [hg j, GenBridge.getD_ofFn, dif_pos hj, GenBridge.getD_replicate]
+    have hn : 0 < P.n := by
+      rcases Nat.eq_zero_or_pos P.n with h | h
+      · simp [h] at hj
+      · exact h
+    have hdiv : j / P.n < P.n := by rw [Nat.div_lt_iff_lt_mul hn]; exact hj
+    simp [hj, hdiv, Mixed.ofReal]
+
+/-- **T12.4 from the GENERATED constructor through the GENERATED loop (ℝ).**  Construct a real `RlsFilter` by the regenerated
+constructor (`λ > 0`, `δ > 0`, any length), run the regenerated loop body of `process` over any frame `(x, d)`: the `_p` it ends
+with is the inverse of `R_k = (λ^k/δ)·I + Σ λ^{k-1-i} u_i u_iᵀ`, its `_w` solves the normal equations and is THE minimiser of the
+exponentially weighted, diagonally regularised least-squares cost. -/
+theorem rls_gen_from_ctor_is_wls (P : RlsP ℝ) (dl : ℝ) (hlam : 0 < P.mu) (hdl : 0 < dl) (x d g0 Pu0 uTP0 guP0 : Array ℝ)
+    (hxd : x.size = d.size) :
+    let o := Gen.rlsRCtor (P.n : Int) P.mu dl
+    let run := runIdx (fun s k => Gen.rlsRStep (rlsObjRP o) s x d (k : Int))
+      (Gen.rlsREnter (rlsObjRP o) ⟨o.u, o.w, o.p, g0, Pu0, uTP0, guP0⟩) x.size
+    let ud := C12.regs P.n o.u (x.toList.zip d.toList)
+    let Rk : Matrix (Fin P.n) (Fin P.n) ℝ := (P.mu ^ x.size / dl) • 1 + C12.wR P.mu ud
+    let J : (Fin P.n → ℝ) → ℝ := fun v => P.mu ^ x.size / dl * (v ⬝ᵥ v) + C12.wJ P.mu ud v
+    C12.Pm P.n run.1.p * Rk = 1 ∧ Rk *ᵥ C12.vecOf P.n run.1.w = C12.wB P.mu ud ∧
+    C12.vecOf P.n run.1.w = C12.Pm P.n run.1.p *ᵥ C12.wB P.mu ud ∧
+    (∀ v, J (C12.vecOf P.n run.1.w) ≤ J v) ∧ (∀ v, J v = J (C12.vecOf P.n run.1.w) → v = C12.vecOf P.n run.1.w) := by
+  intro o
+  have ho : o = rlsObjR P (rlsInit P dl) := rlsRCtor_eq P dl
+  rw [ho]
+  exact rls_gen_is_wls P dl hlam hdl x d g0 Pu0 uTP0 guP0 hxd
+
+/-! ### `RlsFilter<cmplx_t>` -/
+
+def rlsObjC (P : RlsP ℝ) (s : RlsState (Cx ℝ)) : Gen.RlsFilterCObj ℝ :=
+  { n := (P.n : Int), mu := P.mu, u := s.u, w := s.w, p := s.p, locked := s.locked }
+
+def rlsObjCP (o : Gen.RlsFilterCObj ℝ) : Gen.RlsFilterCStepParams ℝ := { n := o.n, mu := o.mu, locked := o.locked }
+
+/-- **bridge, `RlsFilter<cmplx_t>::RlsFilter`** (`_p[i * _n + i] = diag_load` converts the real to `cmplx_t(diag_load, 0)`) -/
+theorem rlsCCtor_eq (P : RlsP ℝ) (dl : ℝ) : Gen.rlsCCtor (P.n : Int) P.mu dl = rlsObjC P (rlsInit P dl) := by
+  unfold Gen.rlsCCtor rlsObjC rlsInit
+  simp only [Gen.arrNew, Int.toNat_natCast, ← Nat.cast_mul, zeroC_eq]
+  congr 1
+  have hf : (Gen.rlsCCtor_loop1 (P.n : Int) dl : Array (Cx ℝ) → Nat → Array (Cx ℝ)) =
+      fun acc i => acc.setIfInBounds (i * P.n + i) (Mixed.ofReal dl) := by
+    funext acc i
+    simp only [Gen.rlsCCtor_loop1]
+    rw [GenBridge.arrSet_eq _ _ (i * P.n + i) _ (by simp only [Int.ofNat_eq_natCast]; push_cast; ring)]
+    simp [Mixed.ofReal]
+  rw [hf]
+  obtain ⟨hs, hg⟩ := foldl_set_diag (Mixed.zero ℝ : Cx ℝ) (Mixed.ofReal dl) P.n
+    (Array.replicate (P.n * P.n) (Mixed.zero ℝ : Cx ℝ)) (by simp) P.n (le_refl _)
+  apply GenBridge.ext_getD (Mixed.zero ℝ : Cx ℝ)
+  · simp [hs]
+  · intro j hj
+    rw [hs] at hj
+    rw [hg j, GenBridge.getD_ofFn, dif_pos hj, GenBridge.getD_replicate]
+    have hn : 0 < P.n := by
+      rcases Nat.eq_zero_or_pos P.n with h | h
+      · simp [h] at hj
+      · exact h
+    have hdiv : j / P.n < P.n := by rw [Nat.div_lt_iff_lt_mul hn]; exact hj
+    simp [hj, hdiv]
+
+/-- the default arguments of the four constructors as the headers have them now -/
+theorem ctor_defaults :
+    (Gen.lmsRCtorDefault_method, (Gen.lmsRCtorDefault_leak : ℝ)) = (Gen.LmsType_LMS, 1) ∧
+    (Gen.lmsCCtorDefault_method, (Gen.lmsCCtorDefault_leak : ℝ)) = (Gen.LmsType_LMS, 1) ∧
+    ((Gen.rlsRCtorDefault_forget_factor : ℝ), (Gen.rlsRCtorDefault_diag_load : ℝ)) = (9 / 10, 1) ∧
+    ((Gen.rlsCCtorDefault_forget_factor : ℝ), (Gen.rlsCCtorDefault_diag_load : ℝ)) = (9 / 10, 1) := by
+  simp [Gen.lmsRCtorDefault_method, Gen.lmsRCtorDefault_leak, Gen.lmsCCtorDefault_method, Gen.lmsCCtorDefault_leak,
+    Gen.rlsRCtorDefault_forget_factor, Gen.rlsRCtorDefault_diag_load, Gen.rlsCCtorDefault_forget_factor,
+    Gen.rlsCCtorDefault_diag_load]
+
+end
+/-! END steps3 constructors -/
 
 end Dsp.C12Gen
